@@ -732,7 +732,40 @@ func ruleValidatorFacts(c *Check, p *Prog) {
 		}
 	}
 	if !found {
-		c.Unk(rule, "types.Validate ⟂ commitment-over-Txs-only", fnName(tv), "", "anchor lost: no Data literal in types.Validate")
+		// the commitment taken of the data itself: then the commitment function is what leaves
+		// the metadata out — it hashes a Data literal that has only the receiver's Txs
+		usesCommit := false
+		for _, b := range tv.Blocks {
+			for _, in := range b.Instrs {
+				if call, ok := in.(*ssa.Call); ok && call.Common().StaticCallee() != nil && call.Common().StaticCallee().String() == "(*"+rootPath+"/types.Data).DACommitment" && len(call.Common().Args) == 1 && call.Common().Args[0] == ssa.Value(tv.Params[1]) {
+					usesCommit = true
+				}
+			}
+		}
+		dc := p.Func("(*" + rootPath + "/types.Data).DACommitment")
+		pruned := false
+		if dc != nil && usesCommit {
+			for _, b := range dc.Blocks {
+				for _, in := range b.Instrs {
+					al, ok := in.(*ssa.Alloc)
+					if !ok || al.Type().(*types.Pointer).Elem().String() != rootPath+"/types.Data" {
+						continue
+					}
+					st := litStores(al)
+					if len(st) == 1 && len(st["Txs"]) == 1 && TermOf(st["Txs"][0], &Ctx{Fn: dc}).String() == dc.Params[0].Name()+".Txs" {
+						pruned = true
+					}
+				}
+			}
+		}
+		switch {
+		case usesCommit && pruned:
+			c.OK(rule, "types.Validate ⟂ commitment-over-Txs-only", fnName(tv), p.Pos(tv.Pos()), "the compared commitment is data.DACommitment(), which hashes Data{Txs: d.Txs}", true)
+		case usesCommit:
+			c.Bad(rule, "types.Validate ⟂ commitment-over-Txs-only", fnName(tv), p.Pos(tv.Pos()), "the compared commitment is taken of the data as it is, and DACommitment does not hash a Data that has only the transactions", nil)
+		default:
+			c.Unk(rule, "types.Validate ⟂ commitment-over-Txs-only", fnName(tv), "", "anchor lost: no Data literal in types.Validate and no commitment of the data parameter")
+		}
 	}
 	c.MinInstances(rule, 12)
 }
